@@ -454,3 +454,24 @@ example : validate [overlappingFieldsCanBeMerged] OverlapWitness.schema OverlapW
 #print axioms C08_overlap_conflicting_types_sound
 #print axioms C08_overlap_sameArguments_spec
 #print axioms C08_overlap_sameValue_spec
+
+/- SingleFieldSubscriptions (§5.2.3.1, no equivalence theorem yet): a fragment contributes root fields
+   only if its type condition can apply to the subscription root type (`topApplies`).  Witnesses on
+   a schema whose subscription root is `S` (`T` is not a type that can be `S`): -/
+namespace SingleRootWitness
+def schema : Schema := { Schema.empty with subscription := some (str "S") }
+def fld (n : String) : Selection := .field [] (str n) [] [] .nil Pos.zero
+/-- `subscription { ... on <tc> { a } b }` -/
+def doc (tc : String) : QueryDoc :=
+  { ops := [{ op := opSubscription, name := [], vars := [], dirs := [],
+              sel := .cons (.inline (str tc) [] (.cons (fld "a") .nil) Pos.zero) (.cons (fld "b") .nil), pos := Pos.zero }],
+    frags := [] }
+end SingleRootWitness
+
+/-- `subscription { ... on T { a } b }`: `a` sits below a type condition that cannot apply, one root field -/
+example : validate [singleFieldSubscriptions] SingleRootWitness.schema (SingleRootWitness.doc "T") = .ok [] := by decide
+
+/-- `subscription { ... on S { a } b }`: two root fields, one error -/
+example : (match validate [singleFieldSubscriptions] SingleRootWitness.schema (SingleRootWitness.doc "S") with
+    | .ok [_] => true
+    | _ => false) = true := by decide
